@@ -321,3 +321,34 @@ Proof.
     apply (reach_lockset cap (start p)); [|exact R]. exact (proj2 (v_all_parts _ (HP p Hp))). }
   exact (no_race cap ts i j ti tj f l wi wj Hex Hne Hi Hj (G i ti Hi) (G j tj Hj) Hai Haj Hw).
 Qed.
+
+(** ---- a write section excludes every reader: what makes "policy before data" visible to lookups ---- *)
+(** while a thread holds a lock in write mode, no other thread (that obeys the lockset discipline) is about to access a
+    field guarded by that lock - in particular, while UpdateResource runs its handlers and then writes the cache inside
+    one write section of m.mu, no lookup can read the cache in between *)
+Theorem writer_excludes_accesses cap ts i j ti tj f l w :
+  exclusive ts -> i <> j -> nth_error ts i = Some ti -> nth_error ts j = Some tj ->
+  In (l, true) (t_held ti) ->
+  v_lockset (checked cap tj) = true -> accesses tj = Some (f, l, w) -> False.
+Proof.
+  intros Hex Hne Hi Hj Hin Hc Ha.
+  assert (Hh : holds (t_held tj) l = true).
+  { unfold checked, accesses in *. destruct tj as [h fr p]. cbn [t_held t_frames t_path] in *.
+    destruct p as [|a r]; [discriminate|]. destruct a; try discriminate. injection Ha as -> -> ->.
+    cbn [check_path] in Hc. rewrite v_and_lockset in Hc. apply andb_true_iff in Hc. destruct Hc as [Hc _]. cbn [v_lockset] in Hc.
+    destruct w; [apply holds_w_holds|]; exact Hc. }
+  pose proof (Hex i j ti tj l true Hne Hi Hj Hin) as Hcf. rewrite (holds_conflicts_w _ _ Hh) in Hcf. discriminate.
+Qed.
+
+(** non-vacuity: a waiting edge exists between two threads on checked paths, and it ends in a thread that does not wait *)
+Lemma waits_example :
+  let p1 := [AAcq LM true; AAcq LC true; ARel LC true; ARel LM true] in
+  let p2 := [AAcq LC false; ARel LC false] in
+  let ts := [ {| t_held := [(LM, true)]; t_frames := [[]]; t_path := [AAcq LC true; ARel LC true; ARel LM true] |};
+              {| t_held := [(LC, false)]; t_frames := [[]]; t_path := [ARel LC false] |} ] in
+  v_all (check_path true [] [[]] p1) = true /\ v_all (check_path true [] [[]] p2) = true /\
+  waits_for ts 0 1 /\ wants (nth 1 ts (start [])) = None.
+Proof.
+  cbn zeta. split; [vm_compute; reflexivity|]. split; [vm_compute; reflexivity|]. split; [|reflexivity].
+  split; [discriminate|]. eexists _, _, LC, true. repeat split; reflexivity.
+Qed.
